@@ -1,4 +1,5 @@
 mod alloc;
+mod auth;
 mod cluster;
 mod journal;
 mod panics;
@@ -15,6 +16,7 @@ fn main() {
         "cluster" => walk::main(&args[2..]),
         "journal" => journal::main(&args[2..]),
         "alloc" => alloc::main(&args[2..]),
+        "auth" => auth::main(&args[2..]),
         _ => {
             eprintln!("unknown command {}", args[1]);
             2
